@@ -409,7 +409,7 @@ class TraceProbe(e2.Probe):
         body = ctext(tree).replace("m(", "m_%s(" % fn)
         self.csrc = "void m_%s(int);\nvoid %s(%s) {\n%s}\n" % (fn, fn, ", ".join(params) or "void", body)
         self.extern_ret = {"m_" + fn: "int"}
-        self.max_visits = 8
+        self.max_visits = 40        # three nested loops of at most 2 iterations each revisit the innermost test 27 times
 
     def assumptions(self, M):
         import abi
@@ -517,6 +517,22 @@ def order_probes(fn, full):
                 P.append(TraceProbe("order/d2/%s/%s" % (fo, fi), fn(), tree, g.nc, g.nn))
             except ValueError:
                 continue
+    # depth 3: exhaustive over 10 forms in the thorough tier, a seeded sample in the quick tier
+    forms3 = ["if", "ifelse", "for", "while", "do", "switch", "forbreak", "gotofwd", "land", "ternary", "whilecontinue", "cgoto"]
+    import random, os
+    combos = [(a, b, c) for a in forms3 for b in forms3 for c in forms3]
+    if not full:
+        rnd = random.Random(int(os.environ.get("VERIF_SEED", "0") or 0))
+        combos = rnd.sample(combos, 60)
+    for fo, fm, fi in combos:
+        g = Gen()
+        try:
+            tree = ("seq", [g.mark(), build(g, fo, lambda: build(g, fm, lambda: build(g, fi, g.mark))), g.mark()])
+            if g.nc + g.nn > 6:
+                continue
+            P.append(TraceProbe("order/d3/%s/%s/%s" % (fo, fm, fi), fn(), tree, g.nc, g.nn))
+        except ValueError:
+            continue
     return P
 
 
@@ -594,9 +610,9 @@ def main(tier, only=None):
     chk = vf.Check("C03", tier)
     probes = mk_probes(tier, only)
     chk.bounds += ["switch: 8 controlling types x 9 label sets (negative, > 32 bits, ranges, unsigned, boundary) x default placement; controlling value symbolic over its full width",
-                   "statement order: all depth-1 and depth-2 nestings of %d statement forms (%s inner forms); every branch condition is a distinct symbolic int; loop bounds symbolic in 0..2" % (len(FORMS), "all" if tier == "thorough" else "15"),
+                   "statement order: all depth-1 and depth-2 nestings of %d statement forms (%s inner forms) and depth-3 nestings of 12 forms (%s); every branch condition is a distinct symbolic int; loop bounds symbolic in 0..2" % (len(FORMS), "all" if tier == "thorough" else "15", "all that fit in 6 parameters" if tier == "thorough" else "a seeded sample of 60"),
                    "scoping: %d shadowing patterns across file/parameter/block/for-init/statement-expression scope and the tag/ordinary/label/member name spaces, values symbolic" % 19]
-    chk.outside += ["nesting depth > 2; loop trip counts > 2", "asm statements", "scoping patterns beyond the listed ones (the scope stack itself is not model-checked here)"]
+    chk.outside += ["nesting depth > 3; loop trip counts > 2", "asm statements", "scoping patterns beyond the listed ones (the scope stack itself is not model-checked here)"]
     chk.assumptions += ["marker function m() is an arbitrary psABI-conforming external function"]
     chk.functions.update(["codegen.c:gen_stmt", "codegen.c:gen_expr ND_COND/ND_LOGAND/ND_LOGOR/ND_COMMA/ND_STMT_EXPR", "parse.c:stmt", "parse.c:resolve_goto_labels",
                           "parse.c:enter_scope/leave_scope/find_var/find_tag (via emitted code)"])
